@@ -1,9 +1,11 @@
 import LlgoVerif.Util
 import LlgoVerif.Model.CoreGo
 import LlgoVerif.Model.OrderFix
+import LlgoVerif.Model.Blocks
 /-! Line-protocol driver for C01.
     `run FUEL <program s-expression>`  ->  `ok <hex of output bytes> normal|exit:N|panic:<hex>` | `stuck <msg>` | `timeout`
     `fix <block>`                      ->  the order the model of fixSSAOrderBlock produces (see Model/OrderFix.lean)
+    `blocks <succs> <preds> <infos>`   ->  `ok` | reason: the validator of cl/blocks output (see Model/Blocks.lean)
     The s-expression grammar is documented in /verif/design/C01.md and produced by /verif/harness/c01/gen.py. -/
 open LlgoVerif LlgoVerif.Util LlgoVerif.CoreGo
 
@@ -266,6 +268,15 @@ def handleFix (toks : List String) : String :=
   | some blk => " ".intercalate ((OrderFix.fixBlock blk).map OrderFix.showInstr)
   | none => "bad-op"
 
+/-- `blocks <succs> <preds> <infos>` : validate one output of the real blocks.Infos (see Model/Blocks.lean for the format) -/
+def handleBlocks (toks : List String) : String :=
+  match toks with
+  | [ss, ps, is] =>
+    match Blocks.parseCFG ss ps, (is.splitOn ",").mapM Blocks.parseInfo with
+    | some g, some infos => Blocks.explain g infos
+    | _, _ => "bad-op"
+  | _ => "bad-op"
+
 def handle (line : String) : String :=
   match line.toList with
   | 'r' :: 'u' :: 'n' :: ' ' :: rest =>
@@ -274,6 +285,7 @@ def handle (line : String) : String :=
     | some fuel, some (items, []) => handleRun fuel items
     | _, _ => "bad-op"
   | 'f' :: 'i' :: 'x' :: rest => handleFix (fields (String.ofList rest))
+  | 'b' :: 'l' :: 'o' :: 'c' :: 'k' :: 's' :: ' ' :: rest => handleBlocks (fields (String.ofList rest))
   | _ => "bad-op"
 
 def main : IO Unit := lineLoop handle
